@@ -77,6 +77,8 @@ def check_batch(drv, batch, st, out):
         v2, problems = structure(circ, rc, validity, inputs)
         for p in problems:
             out["violations"].append({"key": "register-structure", "text": p, "replay": {"ssa": text, "register": rc.text}})
+        if list(rc.inputs) != list(circ.inputs):
+            continue    # reported by structure(); the two forms do not take the same arguments, so there is nothing to compare
         ob, undefined = enc.encode_reg(rc, inputs)
         if len(oa) != len(ob):
             continue
